@@ -97,7 +97,12 @@ func (g *G) StringLit() string {
 }
 
 func (g *G) strBody() string {
-	switch g.t.Draw(18) {
+	switch g.t.Draw(19) {
+	case 17:
+		// long and not ASCII: multi-byte characters at every alignment against any
+		// power-of-two chunk or buffer size a reader may use (0–3 bytes of lead)
+		ch := g.pick([]string{"\u3042", "\u00e9", "\U0001F600", "\u3067\u3059"})
+		return strings.Repeat("x", g.t.Draw(4)) + strings.Repeat(ch, 200+g.t.Draw(900))
 	case 13:
 		return "caf\uFFFD au lait" // a validly encoded replacement character
 	case 14:
